@@ -64,7 +64,7 @@ def main():
                           'mixed_rank_graph under a heuristic name (all names rotate over the frames; pairwise and target-only) and every triplet compared.  A probe frame is scored '
                           'under every documented name.  non-trivial = distinct frames where no column is constant')
     V.assumptions += ['Pearson and adjusted MI are library formulas: the harness evaluates scipy/sklearn on independently computed rank codes (the spec pins columns, coding and side)',
-                      'coverage bucketing collisions need cardinalities far beyond the bounded frames (checked: codes < 3)']
+                      'the high-cardinality family (2400-4000 rows, 1200-4000 category codes per column) is seeded, not exhaustive']
 
     doc = documented_names()
     surrogate = {n for n in doc if n.startswith('surrogate')}
@@ -154,6 +154,42 @@ def main():
         mid = len(jobs) // 2
         V.add_sample({'frame': jobs[mid]['frame'], 'heuristic': jobs[mid]['args']['heuristic'], 'real_triplets': (got[mid].get('ok') or [{}])[0].get('trip'),
                       'spec': {kd: {str(p): sorted(map(str, v)) for p, v in acc_.items()} for kd, acc_ in cases[meta[mid][0]][1].items()}})
+
+    # ---- high-cardinality batches (thousands of category codes per column): coverage and plug-in MI against exact counts
+    from collections import Counter
+    hjobs, hmeta = [], []
+    for hk in range(2 if tier == 'quick' else 6):
+        n_h = rng.choice([2400, 3000, 4000])
+        uid = [f'{i:05d}' for i in rng.sample(range(10 ** 5), n_h)]                       # every row distinct
+        nsid = rng.choice([1200, 1500, 2000])
+        sid = [f's{(i * 7) % nsid}é' for i in range(n_h)]
+        k40 = [f'k{(i // nsid + i) % 40}' for i in range(n_h)]
+        lab3 = [str((i * 11 + (i // 7)) % 3) for i in range(n_h)]
+        frame = {'uid': uid, 'sid': sid, 'k40': k40, 'label': lab3}
+        for hn in ('max-value-coverage', 'MI-numba-3mr'):
+            for mode in ('False', 'True'):
+                hjobs.append({'op': 'rank_graph', 'columns': ['uid', 'label', 'sid', 'k40'], 'frame': frame, 'batches': 1,
+                              'args': {'heuristic': hn, 'label_column': 'label', 'target_ranking_only': mode, 'combination_number_upper_bound': 10 ** 6}})
+                hmeta.append((hk, hn, mode, n_h, nsid))
+    hg = PC.pipe_eval(hjobs, modules=['pipe_ops'])
+    for (hk, hn, mode, n_h, nsid), job, r in zip(hmeta, hjobs, hg):
+        key = f'high-cardinality frame #{hk} rows={n_h} distinct(uid)={n_h} distinct(sid)={nsid} heuristic={hn} target_only={mode} seed={seed}'
+        if r is None or 'ok' not in r:
+            V.violation(f'raises:{hn}:{key}', f'mixed_rank_graph failed: {PC.failure_text(r)}', {'key': key})
+            continue
+        fr = job['frame']
+        for a, b, sc in r['ok'][0]['trip']:
+            if hn == 'max-value-coverage':
+                e = max(Counter(zip(fr[a], fr[b])).values()) / n_h
+                ok = close(sc, e, 1e-12)
+            else:
+                ca, cb, cab = Counter(fr[a]), Counter(fr[b]), Counter(zip(fr[a], fr[b]))
+                e = sum(c_ / n_h * math.log(c_ * n_h / (ca[x_] * cb[y_])) for (x_, y_), c_ in cab.items())
+                ok = close(sc, e, 3e-5 * (2 + abs(e)))
+            if not ok:
+                V.violation(f'score:{hn}:{key} pair=({a},{b})', f'score {sc!r}; the heuristic applied to the two columns gives {e!r} (exact counts over the strings)', {'key': key, 'pair': [a, b]})
+                break
+    V.count(evaluations=len(hjobs), nontrivial=len(hjobs), traces=len(hjobs))
 
     # ---- probe: every documented / statement name must not degrade to a constant score
     n = 40
